@@ -264,7 +264,7 @@ def run_check(cid, tier, seed):
     print("%s %s seed=%d: %d evaluations, %d distinct non-trivial, %.1fs, verdict=%s" % (cid, tier, seed, evaluations, len(hashes), wall, verdict))
     for fid, n in sorted(known.items()):
         if fid in listed:
-            print("KNOWN-FINDING: property=%s %s: %s (%d cases this run)" % (cid, fid, listed[fid]["what"], n))
+            print("KNOWN-FINDING: property=%s %s: %s (%d cases this run)" % (cid, fid, listed[fid].get("summary") or listed[fid]["what"], n))
     if violations:
         for v, pth in zip(violations, replay_paths):
             print("  violation: %s" % str(v["what"])[:300])
